@@ -17,10 +17,11 @@ LEVEL_NOTE = ("Partial in this sense: the theorems are about the modelled consum
               "by instrumentation on generated histories (tested, not proved); parsing/validation/rendering are abstract "
               "parameters of the stream models; sorter I/O is assumed to succeed (faults are C18's subject). Trusted: Coq "
               "kernel, extraction (ExtrOcamlBasic), harness counters, CPython as modelled.")
-RULE = ("four kinds of history: (overlap) the C11 case streams, pulls on each counting input iterator observed after "
-        "construction and after every next(); (reader) 0-4 '#' lines, a column line and 0-8 data lines with LF / CRLF / "
+RULE = ("four kinds of history: (overlap) the C11 case streams, with the default PeekableIterator or a caller's subclass passed as "
+        "peekable_iterator_class, pulls on each counting input iterator observed after construction and after every next(); (reader) 0-4 '#' lines, a column line and 0-8 data lines with LF / CRLF / "
         "no line ends, blank and short lines, k <= n+2 calls of next(), lines pulled observed after construction and "
-        "after every call, plus Strict readers under the built-in scheme gdc-1.0.0 (34 columns) over valid lines and lines "
+        "after every call, the same through MafReader.reader_from on plain and gzip files (lines leaving the opened "
+        "handle are counted), plus Strict readers under the built-in scheme gdc-1.0.0 (34 columns) over valid lines and lines "
         "that fail to parse (bad position, bad enum member, short line), calls continuing after each failure; (writer) 1-6 scheme-less records on a recording handle observed after every write call, "
         "headers declaring no order / Coordinate / BarcodesAndCoordinate / Unsorted / Unknown, sorting not asked for "
         "(assume_sorted=True passed or left at its default) / asked for / asked for but undecidable, += and .write(), "
@@ -45,6 +46,8 @@ def run_reader(case):
     from maflib.reader import MafReader
     from maflib.validation import ValidationStringency as VS
 
+    if case.get("file"):
+        return run_reader_file(case)
     cnt = K.Counting(list(case["lines"]))
     strict = bool(case.get("strict"))
     stg = VS.Strict if strict else (VS.Lenient if case.get("lenient") else VS.Silent)
@@ -67,6 +70,116 @@ def run_reader(case):
             if not strict:
                 break
     return obs
+
+
+class CountingFile:
+    """wraps the text handle reader_from opens: counts the lines that leave it"""
+
+    def __init__(self, fh):
+        self.fh = fh
+        self.n = 0
+
+    def __iter__(self):
+        return self
+
+    def __next__(self):
+        line = next(self.fh)
+        self.n += 1
+        return line
+
+    def readline(self, *a):
+        line = self.fh.readline(*a)
+        if line:
+            self.n += 1
+        return line
+
+    def readlines(self, *a):
+        ls = self.fh.readlines(*a)
+        self.n += len(ls)
+        return ls
+
+    def read(self, *a):
+        txt = self.fh.read(*a)
+        self.n += txt.count("\n") + (1 if txt and not txt.endswith("\n") else 0)
+        return txt
+
+    def close(self):
+        self.fh.close()
+
+    def __getattr__(self, name):
+        return getattr(self.fh, name)
+
+
+def run_reader_file(case):
+    """MafReader.reader_from(path) on a plain or gzip-compressed file; the handle it opens is counted"""
+    import builtins
+    import gzip
+    import os
+    import shutil
+    import tempfile
+
+    import maflib.reader as MR
+    from maflib.reader import MafReader
+    from maflib.validation import ValidationStringency as VS
+
+    d = tempfile.mkdtemp(prefix="c19f_")
+    gz = case["file"] == "gz"
+    path = os.path.join(d, "in.maf" + (".gz" if gz else ""))
+    text = "".join(case["lines"])
+    if gz:
+        with gzip.open(path, "wt", newline="") as fh:
+            fh.write(text)
+    else:
+        with open(path, "w", newline="") as fh:
+            fh.write(text)
+    handles = []
+    real_gzip = MR.gzip
+
+    class GzipProxy:
+        def __getattr__(self, name):
+            return getattr(real_gzip, name)
+
+        def open(self, *a, **k):
+            handles.append(CountingFile(real_gzip.open(*a, **k)))
+            return handles[-1]
+
+    def counting_open(*a, **k):
+        handles.append(CountingFile(builtins.open(*a, **k)))
+        return handles[-1]
+
+    def pulled():
+        return sum(h.n for h in handles)
+
+    MR.gzip = GzipProxy()
+    MR.open = counting_open
+    try:
+        try:
+            r = MafReader.reader_from(path, validation_stringency=VS.Silent)
+        except Exception as e:
+            return {"init": [1, _exc(e), pulled()], "steps": [], "_recs": []}
+        it = iter(r) if case.get("via_iter") else r
+        obs = {"init": [0, pulled()], "steps": [], "_recs": []}
+        for _ in range(case["k"]):
+            try:
+                rec = next(it)
+                obs["steps"].append([0, pulled()])
+                obs["_recs"].append(str(rec))
+            except StopIteration:
+                obs["steps"].append([1, 6, pulled()])
+                break
+            except Exception as e:
+                obs["steps"].append([1, _exc(e), pulled()])
+                break
+        return obs
+    finally:
+        MR.gzip = real_gzip
+        del MR.open
+        for h in handles:
+            try:
+                h.close()
+            except Exception:
+                pass
+        shutil.rmtree(d, ignore_errors=True)
 
 
 class Handle:
@@ -319,10 +432,13 @@ def classify(case, obs):
         return w + "/error"
     if w == "overlap":
         c = case["case"]
-        return "overlap/%s/%s" % (c["stream"], "plain" if c["kind"] == 0 else "allele")
+        return "overlap/%s/%s%s" % (c["stream"], "plain" if c["kind"] == 0 else "allele",
+                                   "/peekable-subclass" if c.get("peek_sub") and c["kind"] == 0 else "")
     if w == "reader":
         if case.get("strict"):
             return "reader/strict-gdc-1.0.0/%s" % ("some-lines-fail" if case["bad"] else "all-valid")
+        if case.get("file"):
+            return "reader/reader_from-%s/lines=%s" % (case["file"], "0-3" if len(case["lines"]) < 4 else "4+")
         return "reader/%s/lines=%s" % ("iter" if case.get("via_iter") else "next", "0-3" if len(case["lines"]) < 4 else "4+")
     if w == "writer":
         return "writer/mode=%d/order=%s/%s/%s" % (
@@ -368,25 +484,22 @@ def gen_reader(rng):
             "lenient": rng.random() < 0.3, "via_iter": rng.random() < 0.3}
 
 
-GDC_COLS = None
-GDC_VALS = {"Hugo_Symbol": "TP53", "Entrez_Gene_Id": "7157", "Center": "BI", "NCBI_Build": "GRCh38", "Chromosome": "chr1",
-            "Start_Position": "10", "End_Position": "11", "Strand": "+", "Variant_Classification": "Missense_Mutation",
-            "Variant_Type": "SNP", "Reference_Allele": "A", "Tumor_Seq_Allele1": "A", "Tumor_Seq_Allele2": "C",
-            "dbSNP_RS": "novel", "Tumor_Sample_Barcode": "T1", "Matched_Norm_Sample_Barcode": "N1",
-            "Verification_Status": "Unknown", "Validation_Status": "Untested", "Mutation_Status": "Somatic",
-            "Sequencer": "Illumina HiSeq 2000", "Tumor_Sample_UUID": "6e8d6b4c-3b1f-4c1e-9c3a-0a1b2c3d4e5f"}
+GDC_VALS = K.GDC_VALS
+gdc_cols = K.gdc_cols
 
 
-def gdc_cols():
-    """column names of the built-in scheme gdc-1.0.0, read from the checked tree"""
-    global GDC_COLS
-    if GDC_COLS is None:
-        import json
-        import os
-        import maflib
-        path = os.path.join(os.path.dirname(maflib.__file__), "schemas", "gdc-1.0.0.json")
-        GDC_COLS = [c[0] for c in json.load(open(path))["columns"]]
-    return GDC_COLS
+def gen_reader_file(rng):
+    """the same histories through MafReader.reader_from on a plain / gzip file"""
+    c = gen_reader(rng)
+    c["lines"] = [l.rstrip("\r\n") + "\n" for l in c["lines"]]
+    if rng.random() < 0.4:
+        extra = rng.randint(5, 40)            # a longer body: materialising the file shows at once
+        ncol = len(c["lines"][-1].split("\t")) if c["lines"] else 1
+        c["lines"] += ["\t".join(str(rng.randint(0, 9)) for _ in range(ncol)) + "\n" for _ in range(extra)]
+    c["file"] = rng.choice(["gz", "gz", "plain"])
+    c["lenient"] = False
+    c["k"] = min(c["k"], rng.choice([1, 2, 3, 5, 50]))
+    return c
 
 
 def gen_reader_strict(rng):
@@ -466,6 +579,8 @@ def gen_overlap(rng):
         c = K.gen_defect(rng, kind, ot)
     else:
         c = K.gen_adversarial(rng, kind, ot)
+    if kind == 0 and rng.random() < 0.35:
+        c["peek_sub"] = True          # the caller passes its own PeekableIterator subclass
     return {"what": "overlap", "case": c}
 
 
@@ -476,7 +591,8 @@ def generate(rng, n):
         if r < 5:
             out.append(gen_overlap(rng))
         elif r < 8:
-            out.append(gen_reader_strict(rng) if k % 36 in (5, 17) else gen_reader(rng))
+            out.append(gen_reader_strict(rng) if k % 36 in (5, 17) else
+                       gen_reader_file(rng) if k % 12 == 6 else gen_reader(rng))
         elif r < 10:
             out.append(gen_writer(rng))
         else:
@@ -498,6 +614,10 @@ def corpus():
         {"what": "writer", "mode": 0, "order": "Unsorted", "explicit": False, "use_write": False,
          "recs": [["A\tB", "1\t2", True], ["A\tB", "3\t4", True]]},
         {"what": "sorter", "cap": 3, "n": 10},
+        {"what": "sorter", "cap": 2, "n": 5},
+        {"what": "reader", "file": "gz", "lines": ["#a b\n", "A\tB\n"] + ["%d\t%d\n" % (i, i) for i in range(12)], "k": 3, "lenient": False, "via_iter": False},
+        {"what": "reader", "file": "plain", "lines": ["A\tB\n"] + ["%d\t%d\n" % (i, i) for i in range(12)], "k": 3, "lenient": False, "via_iter": True},
+        {"what": "overlap", "case": dict(K.corpus()[4], peek_sub=True)},
         {"what": "sorter", "cap": 1, "n": 4},
         {"what": "overlap", "case": K.corpus()[2]},
     ]
